@@ -11,7 +11,7 @@ fixed_cases = _prog.fixed_cases_dense
 RULE = ("case = program compiled on each of 3.7-3.10; for every code object (nested included) the flattened blocks of "
         "from_code(c) are compared position by position with an independent scan of co_code (cross-checked with dis): opname, "
         "operand class and resolved value (names/locals/cells/frees/constants by typed key), jump kind and the block that "
-        "starts at CPython's jump destination, line_number == PyCode_Addr2Line(first unit); non-trivial = some code object "
+        "starts at CPython's jump destination, line_number == PyCode_Addr2Line(first unit); the same comparison is then made for two look-alikes of c that compare equal under code.__eq__ (only the line table shifted, same file; and other file + shifted lines) decoded while c is alive; non-trivial = some code object "
         "has >=1 jump and >=2 distinct lines; distinct = sha1(case)+interpreter")
 ASSUMPTIONS = _prog.PROG_ASSUMPTIONS
 REQUIRED_CLASSES = ["jump_rel", "jump_backward", "extended_arg_on_jump", "cell_and_free", "noline_entry", "negative_line_delta"]
